@@ -1076,7 +1076,7 @@ func (c *FnCtx) havocSet(st *State, m *modSet, why string) {
 				continue
 			}
 			if strings.HasPrefix(k, "ghost$lock") || strings.HasPrefix(k, "ghost$cb") || k == "ghost$cancelled" ||
-				strings.HasPrefix(k, "ghost$calls$") || strings.HasPrefix(k, "ghost$arg$") || strings.HasPrefix(k, "ghost$calllock$") || strings.HasPrefix(k, "ghost$callgen$") {
+				strings.HasPrefix(k, "ghost$calls$") || strings.HasPrefix(k, "ghost$arg$") || strings.HasPrefix(k, "ghost$argelem$") || strings.HasPrefix(k, "ghost$calllock$") || strings.HasPrefix(k, "ghost$callgen$") {
 				// bookkeeping of the verified goroutine itself (locks it holds, its callback log): code we cannot see
 				// does not lock/unlock on our behalf (assumed); callbacks update the log through their own hooks
 				if !m.comps[k] {
@@ -1297,6 +1297,9 @@ func (c *FnCtx) callMods(fr *Frame, call *ssa.CallCommon, m *modSet, depth int) 
 			m.comps["ghost$callgen$"+callee.Name()] = true
 			for k := range call.Args {
 				m.comps[fmt.Sprintf("ghost$arg$%s$%d", callee.Name(), k)] = true
+				for i := 0; i < 4; i++ {
+					m.comps[fmt.Sprintf("ghost$argelem$%s$%d$%d", callee.Name(), k, i)] = true
+				}
 			}
 		}
 		c.funcMods(callee, m, depth)
@@ -1359,6 +1362,36 @@ func (c *FnCtx) trackCall(st *State, fn *ssa.Function, args []Val) {
 		c.comp(name, c.ty.SortOf(a.T), a.T)
 		c.trackArgT[name] = a.T
 		st.heap[name] = c.sc.Define(name, c.ty.SortOf(a.T), a.E)
+		c.snapshotSliceArg(st, fn.Name(), k, a)
+	}
+}
+
+// snapshotSliceArg: for a slice argument of statically known short length (variadic option lists), the element values
+// as they are AT THE CALL are remembered too (lastargelem(F, k, i)): the callee may overwrite the backing array later.
+func (c *FnCtx) snapshotSliceArg(st *State, fname string, k int, a Val) {
+	slt, ok := a.T.Underlying().(*types.Slice)
+	if !ok {
+		return
+	}
+	n := -1
+	if ls, ok := c.sliceLen[a.E]; ok {
+		if v, err := strconv.Atoi(ls); err == nil && v <= 4 {
+			n = v
+		}
+	}
+	// elements not snapshotted at this call (beyond its length, or length unknown) lose what an earlier call recorded
+	for i := 0; i < 5; i++ {
+		name := fmt.Sprintf("ghost$argelem$%s$%d$%d", fname, k, i)
+		if _, had := c.trackArgT[name]; had && i >= n {
+			st.heap[name] = c.fresh(name, slt.Elem(), st).E
+		}
+	}
+	h := c.elemHeap(slt.Elem())
+	for i := 0; i < n; i++ {
+		name := fmt.Sprintf("ghost$argelem$%s$%d$%d", fname, k, i)
+		c.comp(name, c.ty.SortOf(slt.Elem()), slt.Elem())
+		c.trackArgT[name] = slt.Elem()
+		st.heap[name] = c.sc.Define(name, c.ty.SortOf(slt.Elem()), fmt.Sprintf("(select (select %s (s-arr %s)) (+ (s-off %s) %d))", c.heapGet(st, h), a.E, a.E, i))
 	}
 }
 
@@ -1415,7 +1448,7 @@ func (c *FnCtx) funcMods(fn *ssa.Function, m *modSet, depth int) {
 		mm.alloc = true
 		// `modifies` speaks about program state; the ghost bookkeeping the body advances (callback log, channel
 		// sequences, tracked calls, lock generations) changes whatever the clause says
-		if spec.Options["opaque"] != "" {
+		if _, opaque := spec.Options["opaque"]; opaque {
 			// `option opaque`: the callee is a black box that does not call back into functions its callers track
 			// (assumed, listed); only what `modifies` names changes
 			c.assumed["opaque callee (does not call functions its callers track): "+c.eng.funcName(fn)] = true
